@@ -54,6 +54,19 @@ impl<T> Cmd<T> {
     }
 }
 
+#[derive(Default, Debug)]
+pub struct StateProbe {
+    pub open_err: Option<String>,
+    pub index_err: Option<String>,
+    pub list_err: Option<String>,
+    pub check_ran: bool,
+    pub check_errors: Vec<String>,
+    /// listed snapshot id -> (tree id, time)
+    pub listed: BTreeMap<String, (String, i64)>,
+    pub readback: BTreeMap<String, ReadBack>,
+    pub panic: Option<String>,
+}
+
 #[derive(Clone)]
 pub struct SnapRec {
     pub snap: SnapshotFile,
@@ -74,6 +87,10 @@ pub struct Sim {
     pub gates: u64,
     pub sim_ns: i64,
     pub policies: BTreeMap<String, u64>,
+    /// panics of detached library threads while the command itself returned normally
+    pub bg_panics: Vec<String>,
+    /// treat such background panics as a panic of the command (right for fault-free scenarios)
+    pub strict_bg_panics: bool,
 }
 
 impl Sim {
@@ -93,6 +110,8 @@ impl Sim {
             gates: 0,
             sim_ns: 0,
             policies: BTreeMap::new(),
+            bg_panics: vec![],
+            strict_bg_panics: true,
         }
     }
 
@@ -118,13 +137,17 @@ impl Sim {
             (_, Some(Err(p))) => Cmd::Panic(panics.first().cloned().unwrap_or(p)),
             (Stop::Done, Some(Ok(Ok(v)))) => {
                 if let Some(p) = panics.first() {
-                    // a library thread panicked although the command returned Ok
-                    Cmd::Panic(p.clone())
+                    // a detached library thread panicked although the command returned Ok
+                    self.bg_panics.extend(panics.iter().cloned());
+                    if self.strict_bg_panics { Cmd::Panic(p.clone()) } else { Cmd::Ok(v) }
                 } else {
                     Cmd::Ok(v)
                 }
             }
-            (Stop::Done, Some(Ok(Err(e)))) => Cmd::Err(etext(&e)),
+            (Stop::Done, Some(Ok(Err(e)))) => {
+                self.bg_panics.extend(panics.iter().cloned());
+                Cmd::Err(etext(&e))
+            }
             (Stop::NoProgress, r) => {
                 if let Some(p) = panics.first() {
                     Cmd::Panic(p.clone())
@@ -257,6 +280,8 @@ impl Sim {
             gates: 0,
             sim_ns: 0,
             policies: BTreeMap::new(),
+            bg_panics: vec![],
+            strict_bg_panics: self.strict_bg_panics,
         }
     }
 
@@ -330,6 +355,126 @@ impl Sim {
         match r {
             Cmd::Ok(v) => v,
             _ => vec![],
+        }
+    }
+
+    /// A short fault-free history (free-running): backups of an evolving source, stale-index
+    /// double backups (duplicate blobs), forgets and non-instant prunes (marked packs). Leaves at
+    /// least two snapshots. Returns a description of the ops or the first failure.
+    pub fn build_history(&mut self, rng: &mut Rng, gen: &crate::model::GenParams, model: &mut FsModel, steps: usize) -> Result<Vec<String>, (String, String)> {
+        use crate::model::{ReadPlan, edit_model};
+        let plan = ReadPlan { frag: vec![0, 4097], eintr_every: 0, gate_reads_every: 0 };
+        let mut hist = vec![];
+        for i in 0..steps {
+            let choice = if i < 2 { 0 } else { rng.weighted(&[5, 2, 3, 2]) };
+            match choice {
+                0 => {
+                    let now = crate::interpose::clock_now() / 1_000_000_000;
+                    let _ = edit_model(rng, model, gen, now, 3);
+                    match self.backup(&Mode::Free, &model.clone(), 1, &BackupOptions::default(), &plan, "hist") {
+                        Cmd::Ok(_) => hist.push("backup".to_string()),
+                        r => return Err((format!("history-backup-{}", r.class()), r.detail())),
+                    }
+                }
+                1 => {
+                    let now = crate::interpose::clock_now() / 1_000_000_000;
+                    let ma = model.clone();
+                    let _ = edit_model(rng, model, gen, now, 2);
+                    let mb = model.clone();
+                    let (store, key, sched, seed, plan2, ma2, mb2) = (self.store.clone(), self.key.clone(), self.sched.clone(), self.seed, plan.clone(), ma.clone(), mb.clone());
+                    let r = self.run(&Mode::Free, move || {
+                        let a = repo_open(&store, 1, &key)?.to_indexed_ids()?;
+                        let b = repo_open(&store, 2, &key)?.to_indexed_ids()?;
+                        let force = BackupOptions::default().parent_opts(rustic_core::ParentOptions::default().force(true));
+                        let sa = backup_model(&a, &ma2, &sched, 1, &plan2, seed, &force, "hista")?.snap;
+                        let sb = backup_model(&b, &mb2, &sched, 2, &plan2, seed, &force, "histb")?.snap;
+                        Ok((sa, sb))
+                    });
+                    match r {
+                        Cmd::Ok((sa, sb)) => {
+                            let _ = self.snaps.insert(id_hex(&sa.id), SnapRec { snap: sa, model: ma });
+                            let _ = self.snaps.insert(id_hex(&sb.id), SnapRec { snap: sb, model: mb });
+                            hist.push("two stale-index backups".to_string());
+                        }
+                        r => return Err((format!("history-stale-backups-{}", r.class()), r.detail())),
+                    }
+                }
+                2 => {
+                    let ids: Vec<String> = self.snaps.keys().cloned().collect();
+                    if ids.len() > 2 {
+                        let victim = ids[rng.usize(ids.len())].clone();
+                        match self.forget(&Mode::Free, 1, &[victim]) {
+                            Cmd::Ok(()) => hist.push("forget 1".to_string()),
+                            r => return Err((format!("history-forget-{}", r.class()), r.detail())),
+                        }
+                    }
+                }
+                _ => {
+                    let o = PruneOptions::default()
+                        .max_unused(rustic_core::LimitOption::Percentage(*rng.pick(&[0u64, 50])))
+                        .max_repack(rustic_core::LimitOption::Unlimited)
+                        .keep_delete(jiff::Span::new().hours(*rng.pick(&[0i64, 1])));
+                    match self.prune(&Mode::Free, 1, &o) {
+                        Cmd::Ok(()) => hist.push("prune (non-instant)".to_string()),
+                        r => return Err((format!("history-prune-{}", r.class()), r.detail())),
+                    }
+                }
+            }
+            crate::interpose::clock_advance(61_000_000_000);
+        }
+        Ok(hist)
+    }
+
+    /// Everything a user can observe about a file state through fresh handles: can it be opened
+    /// and indexed, which snapshots are listed (id -> tree id), how each known snapshot reads back,
+    /// and what check(read_data) says. Panics are caught and reported.
+    pub fn probe_state(&mut self, files: Files, expected: &BTreeMap<String, FsModel>) -> StateProbe {
+        let key = self.key.clone();
+        let store = SimStore::from_files("probe", Sched::new(), files);
+        let expected = expected.clone();
+        let mut rng = self.rng.fork("probe");
+        let r = self.run(&Mode::Free, move || {
+            let mut p = StateProbe::default();
+            let repo = match repo_open(&store, 94, &key) {
+                Ok(r) => r,
+                Err(e) => {
+                    p.open_err = Some(etext(&e));
+                    return Ok(p);
+                }
+            };
+            match repo.check(CheckOptions::default().read_data(true)) {
+                Ok(res) => p.check_errors = common::check_errors(&res),
+                Err(e) => p.check_errors = vec![format!("check failed: {}", etext(&e))],
+            }
+            p.check_ran = true;
+            let snaps = match repo.get_all_snapshots() {
+                Ok(v) => v,
+                Err(e) => {
+                    p.list_err = Some(etext(&e));
+                    vec![]
+                }
+            };
+            for sn in &snaps {
+                let _ = p.listed.insert(id_hex(&sn.id), (id_hex(&sn.tree), sn.time.timestamp().as_second()));
+            }
+            match repo.to_indexed() {
+                Err(e) => p.index_err = Some(etext(&e)),
+                Ok(repo) => {
+                    for sn in &snaps {
+                        let h = id_hex(&sn.id);
+                        if let Some(m) = expected.get(&h) {
+                            let rb = read_back(&repo, sn, m, &ReadBackOpts { ranged: 1, ..ReadBackOpts::default() }, &mut rng);
+                            let _ = p.readback.insert(h, rb);
+                        }
+                    }
+                }
+            }
+            Ok(p)
+        });
+        match r {
+            Cmd::Ok(p) => p,
+            Cmd::Panic(pn) => StateProbe { panic: Some(pn), ..StateProbe::default() },
+            other => StateProbe { panic: Some(format!("probe did not complete: {}", other.detail())), ..StateProbe::default() },
         }
     }
 
